@@ -154,7 +154,22 @@ fn judge_ok(model: &QpModel, exp: &Expected, inst: &v1::Instance, text: &str, mo
                                 )),
                             );
                         } else if k != ev.kind {
-                            mon.observe(&format!("kind-representation:{:?}-as-{:?}", ev.kind, k));
+                            // the declared type is returned, except that an integer variable whose declared
+                            // bounds are exactly (0,1), (1,1) or (0,0) may come back as binary (QPLIB's way of
+                            // writing a binary or fixed binary variable) and a binary one as integer [0,1]
+                            let pair = (ev.lower, ev.upper);
+                            let documented = is_discrete(k) && is_discrete(ev.kind) && (ev.kind == VType::Binary || pair == (0.0, 1.0) || pair == (1.0, 1.0) || pair == (0.0, 0.0));
+                            if documented {
+                                mon.observe(&format!("kind-representation:{:?}-as-{:?}", ev.kind, k));
+                            } else {
+                                report!(mon,
+                                    "C19.variables:declared-type",
+                                    ctx(format!(
+                                        "variable {} (file index {}): declared {:?} with bounds [{}, {}], returned as {:?} [{}, {}] (same value set, but the file's type is only replaced for integer variables bounded (0,1), (1,1) or (0,0))",
+                                        ev.id, ev.id + 1, ev.kind, ev.lower, ev.upper, k, l, u
+                                    )),
+                                );
+                            }
                         }
                     }
                 }
